@@ -51,6 +51,16 @@ def gen_bytes(rnd, kind, n):
         while len(out) < n:
             out += bytes([rnd.randrange(4) * 60]) * rnd.randint(1, 200)
         return bytes(out[:n])
+    if kind in ('rgb', 'pcm'):
+        # raw samples: 24-bit RGB pixels (each channel a slow random walk: best predicted by the byte 3 back) / 16-bit stereo PCM
+        step = 3 if kind == 'rgb' else 4
+        c = [128] * step
+        out = bytearray()
+        while len(out) < n:
+            for k in range(step):
+                c[k] = (c[k] + rnd.randint(-3, 3)) & 255
+                out.append(c[k])
+        return bytes(out[:n])
     return bytes((i * 7) & 255 for i in range(n))
 
 
@@ -83,7 +93,7 @@ def make_tree(root, rnd, nfiles, max_size=120000, shape='random'):
         name = fixed or (rnd.choice(['file%d.txt', 'data%d.bin', '.dot%d', 'with space %d', 'x%d.knz.txt', 'noext%d']) % i)
         n = rnd.choice(sizes) if rnd.random() < 0.6 else rnd.randrange(max_size)
         with open(os.path.join(root, d, name), 'wb') as fh:
-            fh.write(gen_bytes(rnd, rnd.choice(['text', 'random', 'dna', 'runs', 'ramp']), n))
+            fh.write(gen_bytes(rnd, rnd.choice(['text', 'random', 'dna', 'runs', 'ramp', 'rgb', 'pcm']), n))
     # an empty directory too
     os.makedirs(os.path.join(root, 'emptydir'), exist_ok=True)
     return tree_digest(root)
